@@ -26,6 +26,39 @@ def pbkdf2Sha256 (pw salt : Bytes) (c dkLen : Nat) : Bytes :=
     t
   (blocks.flatMap id).take dkLen
 
+/-- `SHA256_Pad_Almost`: 0x80, zeros up to the length field, the bit count; the buffer then is one whole block
+    (the C function refuses - and the caller falls back to the generic path - when fewer than `lenBytes` + 1 bytes are free) -/
+def padAlmost {σ} (A : MD.Alg σ) (buf : Bytes) (count : Nat) : Bytes :=
+  buf ++ 0x80 :: List.replicate (A.block - A.lenBytes - 1 - buf.length) 0 ++ MD.lenField A (8 * count)
+
+def hmacKey {σ} (A : MD.Alg σ) (pw : Bytes) : Bytes := if pw.length > A.block then MD.hash A pw else pw
+def kpad {σ} (A : MD.Alg σ) (key : Bytes) (p : UInt8) : Bytes := (List.range A.block).map fun i => p ^^^ key.getD i 0
+
+/-- the i-th output block as the `c == 1` fast path of `PBKDF2_SHA256` computes it: both contexts are padded once,
+    per block only the four counter bytes inside the inner buffer change, and each HMAC costs two compressions -/
+def fastBlock {σ} (A : MD.Alg σ) (hlen : Nat) (pw salt : Bytes) (i : Nat) : Bytes :=
+  let key := hmacKey A pw
+  let ictx0 := MD.update A (MD.update A (MD.init A) (kpad A key 0x36)) salt
+  let octx := MD.update A (MD.init A) (kpad A key 0x5c)
+  let old := ictx0.count % A.block
+  let ictx := MD.update A ictx0 [0, 0, 0, 0]
+  let ibuf := padAlmost A ictx.buf ictx.count
+  let otail := (padAlmost A (List.replicate hlen 0) (octx.count + hlen)).drop hlen
+  let ib := ibuf.take old ++ toBe32 (i + 1).toUInt32 ++ ibuf.drop (old + 4)
+  let inner := A.out (A.compress ictx.st ib)
+  A.out (A.compress octx.st (inner ++ otail))
+
+/-- `PBKDF2_SHA256` as written in alg-sha256.c: for c = 1, whole 32-byte blocks and a salt whose last partial block is at most 51 bytes
+    the fast path - unless the four counter bytes wrapped the buffer or `SHA256_Pad_Almost` found no room, when the code jumps back to
+    `generic:` ("can't happen") - and the generic loop otherwise.  `pbkdf2Impl_eq` (Lemmas/Pbkdf2.lean): it is `pbkdf2Sha256`. -/
+def pbkdf2Impl (pw salt : Bytes) (c dkLen : Nat) : Bytes :=
+  if c = 1 ∧ dkLen % 32 = 0 ∧ salt.length % 64 ≤ 51 then
+    let old := (64 + salt.length) % 64
+    let r := (64 + salt.length + 4) % 64
+    if r < old ∨ 56 ≤ r then pbkdf2Sha256 pw salt c dkLen
+    else ((List.range (dkLen / 32)).map fun i => fastBlock Sha256.alg 32 pw salt i).flatten
+  else pbkdf2Sha256 pw salt c dkLen
+
 /-- bytes → shuffled words: X[k·16 + i] = le32 (B, k·16 + (i·5 mod 16)) -/
 def loadShuffled (B : Bytes) (r : Nat) : Blk :=
   let a := B.toArray
